@@ -338,16 +338,17 @@ theorem k1_straggler_is_K1 :
     stragglerClaims 2 [[.push 1], [.push 2], [.clear]] [0, 1, 2, 0, 0, 0, 0, 1, 2, 2, 2, 2, 2, 1, 1] = 1
     ∧ stragglerClaims 2 [[.push 1], [.push 2], [.clear]] [0, 1, 2, 0, 0, 0, 0, 1, 2, 2, 2, 2, 2] = 0 := by decide
 
-/-- non-vacuity for `conservation_except_K1` (block size 2): pusher 1 hands block 0 over to block 1 while clear #1 sits
-    between its tail load and its CAS (the CAS fails, the clear returns nothing); clear #2 detaches the two-block chain
-    while BOTH pushers are between slot write and publish, has to wait on each block, and delivers all three values;
-    the push that started after the detach lands in a fresh block and stays visible.  No K1 step. -/
+/-- non-vacuity for `conservation_except_K1` (block size 2): pusher 1 hands block 0 over to block 1 while the clear sits
+    between its tail load and its CAS (the CAS fails; the clear loads the tail again and retries — before the fix
+    "clear_with retries its detach …" it returned nothing here); the retried CAS detaches the two-block chain
+    while BOTH pushers are between slot write and publish, the clear has to wait on each block, and delivers all three
+    values; the push that started after the detach lands in a fresh block and stays visible.  No K1 step. -/
 example :
-    let progs : List (List Call) := [[.push 1, .push 2, .push 3], [.push 4], [.clear, .clear]]
+    let progs : List (List Call) := [[.push 1, .push 2, .push 3], [.push 4], [.clear]]
     let sched := [0,0,0,0,0, 0,0, 2,2, 1,1,1,1,1, 2, 2,2,2,2, 1, 2,2,2,2, 0, 2,2,2, 0,0,0,0]
     let s := run (init 2 progs) sched
     stragglerClaims 2 progs sched = 0 ∧ quiescent s = true
-    ∧ (s.threads[2]?.map (·.results)) = some [.cleared [], .cleared [4, 1, 2]]
+    ∧ (s.threads[2]?.map (·.results)) = some [.cleared [4, 1, 2]]
     ∧ delivered s = [4, 1, 2] ∧ visible s = [3] ∧ s.blocks.length = 3 := by decide
 
 /-! ### non-vacuity: three pushers racing over a block hand-over (block size 2) -/
@@ -415,7 +416,7 @@ open MetricsVerif.Src in
 /-- SOURCE FACT: the order of the shared-memory operations is the one the step machine's program counters follow:
     claim → slot write → publish; quiescence reads the published length BEFORE the claim counter; a new block is
     linked to its predecessor BEFORE the CAS that publishes it; readers check quiescence before reading a block;
-    a clearer detaches with one CAS on `tail`; the block size is 64 -/
+    a clearer detaches with a CAS on `tail` (re-loading `tail` when it fails: `src_clear_detach_retries`); the block size is 64 -/
 theorem src_bucket_shape :
     names Generated.shape_block_push = ["write.fetch_add", "_.write", "read.fetch_or"]
     ∧ names Generated.shape_block_len = ["read.load"]
@@ -425,8 +426,21 @@ theorem src_bucket_shape :
         = ["tail.load", "tail.compare_exchange", "tail_block.push", "next.store", "tail.compare_exchange", "new_tail.push"]
     ∧ names Generated.shape_bucket_data_with = ["tail.load", "block.is_quiesced", "block.data", "next.load"]
     ∧ names Generated.shape_bucket_clear_with
-        = ["tail.load", "tail.compare_exchange", "block.is_quiesced", "block.data", "next.load"]
+        = ["tail.load", "tail.compare_exchange", "tail.load", "block.is_quiesced", "block.data", "next.load"]
     ∧ Generated.bucket_block_size = "64" := by decide
+
+/-- SOURCE FACT (regenerated on every run; since the fix "clear_with retries its detach when the tail moved under it"):
+    the detach of `clear_with` is a RETRY LOOP, the shape the step machine's `cLoadTail → cCas → (cLoadTail | cQuiesced)`
+    follows: `while !block_ptr.is_null() { if tail.compare_exchange(block_ptr, null).is_ok() { break; } block_ptr =
+    tail.load(); }` — the loop runs while the loaded tail is non-null, its only way out besides the condition is the
+    `break` taken when the CAS succeeded, a failed CAS is followed by a fresh load of `tail` into the same variable; the
+    walk that follows is guarded by that variable being non-null; and nothing returns before the walk (a failed CAS can
+    no longer end the call).  The tree before the fix has no such loop (the extractor then yields `<missing>`). -/
+theorem src_clear_detach_retries :
+    Generated.bucket_clear_detach_loop
+      = ["while:!block_ptr.is_null()", "if", "tail.compare_exchange", "is_ok", "break", "block_ptr=tail.load"]
+    ∧ Generated.bucket_clear_after_detach = "if!block_ptr.is_null()"
+    ∧ Generated.bucket_clear_exits_before_walk = [] := by decide
 
 /-- the instantiated statement: with the orderings of the current source, no reader of the bucket ever reads a
     slot (or a block) that races with, or precedes, its initialising write — any number of threads, any schedule -/
@@ -687,20 +701,21 @@ theorem chainData_congr (s s' : Sys) (hb : s'.blocks = s.blocks) : ∀ (fuel : N
     | none => rfl
     | some i => simp only [chainData, getBlock, hb, ih]
 
-/-- **a failed detach delivers nothing and loses nothing.**  Any state, any thread that stands at the detaching CAS of
-    its `clear_with` (`cCas old`: it loaded `old` as the tail) while the tail is no longer `old`: its next step ends the
-    call with the result `cleared []` (the callback was never called: the accumulator is not even consulted), and the
-    bucket is untouched — same blocks, same tail, hence the same values visible to a snapshot, the same values delivered
-    so far, the same completed pushes.  Whatever was in the bucket (including pushes that completed before this
-    `clear_with` began) is still there for the next read. -/
+/-- **a failed detach changes nothing, and the clearer tries again.**  Any state, any thread that stands at the detaching
+    CAS of its `clear_with` (`cCas old`: it loaded `old` as the tail) while the tail is no longer `old`: its next step
+    leaves the bucket untouched — same blocks, same tail, hence the same values visible to a snapshot, the same values
+    delivered so far, the same completed pushes — and the thread itself only moves back to the tail load of the SAME call
+    (`cLoadTail`; calls, accumulator and results unchanged: the call has not returned, the callback was not called).
+    (Since the fix "clear_with retries its detach when the tail moved under it"; before it the call ended here with
+    `cleared []`: `legacy_failed_detach_ends_call`.) -/
 theorem failed_detach_delivers_nothing_and_loses_nothing (s : Sys) (tid : Nat) (t : Thread) (old : Nat)
     (ht : s.threads[tid]? = some t) (hpc : t.pc = .cCas old) (hfail : s.tail ≠ some old) :
     let s' := step s tid
-    s'.threads[tid]? = some (t.advance (.cleared []))
+    s'.threads[tid]? = some { t with pc := .cLoadTail }
     ∧ s'.blocks = s.blocks ∧ s'.tail = s.tail
     ∧ visible s' = visible s ∧ delivered s' = delivered s ∧ completedPushes s' = completedPushes s := by
   intro s'
-  have hstep : s' = { s with threads := setAt s.threads tid (t.advance (.cleared [])) } := by
+  have hstep : s' = { s with threads := setAt s.threads tid { t with pc := .cLoadTail } } := by
     simp only [s', step, ht, stepThread, hpc, if_neg hfail]
   have hlt : tid < s.threads.length := by
     rcases Nat.lt_or_ge tid s.threads.length with h | h
@@ -716,21 +731,21 @@ theorem failed_detach_delivers_nothing_and_loses_nothing (s : Sys) (tid : Nat) (
     exact chainData_congr s s' hb _ _
   · unfold delivered
     rw [hstep]
-    exact flatMap_setAt_of_eq _ _ _ _ _ ht (by simp [Thread.advance])
+    exact flatMap_setAt_of_eq _ _ _ _ _ ht rfl
   · unfold completedPushes
     rw [hstep]
     simp only
-    rw [map_setAt_of_eq _ _ _ _ _ ht (by simp [Thread.advance, List.countP_append])]
+    exact congrArg List.sum (map_setAt_of_eq _ _ _ _ _ ht rfl)
 
 /-- the same seen from the successful side: the CAS of `clear_with` either detaches the WHOLE chain (tail := null, the
-    walk starts at the loaded block) or — exactly when the tail is no longer the loaded one — does nothing; there is no
-    third outcome (no partial drain) -/
+    walk starts at the loaded block) or — exactly when the tail is no longer the loaded one — changes nothing and sends
+    the clearer back to its tail load; there is no third outcome (no partial drain, no return without a detach) -/
 theorem detach_cas_all_or_nothing (s : Sys) (tid : Nat) (t : Thread) (old : Nat)
     (ht : s.threads[tid]? = some t) (hpc : t.pc = .cCas old) :
     (s.tail = some old ∧ (step s tid).tail = none ∧ (step s tid).blocks = s.blocks
         ∧ ((step s tid).threads[tid]?.map (·.pc)) = some (.cQuiesced old))
     ∨ (s.tail ≠ some old ∧ (step s tid).tail = s.tail ∧ (step s tid).blocks = s.blocks
-        ∧ (step s tid).threads[tid]? = some (t.advance (.cleared []))) := by
+        ∧ (step s tid).threads[tid]? = some { t with pc := .cLoadTail }) := by
   have hlt : tid < s.threads.length := by
     rcases Nat.lt_or_ge tid s.threads.length with h | h
     · exact h
@@ -743,11 +758,11 @@ theorem detach_cas_all_or_nothing (s : Sys) (tid : Nat) (t : Thread) (old : Nat)
     have := failed_detach_delivers_nothing_and_loses_nothing s tid t old ht hpc h
     exact ⟨h, this.2.2.1, this.2.1, this.1⟩
 
-/-- the failed detach on a concrete run (block size 2; the harness replays the shape on the real bucket with 64): pushes
+/-- the retried detach on a concrete run (block size 2; the harness replays the shape on the real bucket with 64): pushes
     1 and 2 have COMPLETED and fill the block before the clear begins; the clearer loads the tail; the pusher of 3 finds
-    the block full, installs a new tail and completes; the clearer's CAS fails: it returns `cleared []` although three
-    pushes had completed — two of them before it began — and all three values stay visible; no K1 step is involved and
-    the next clear delivers all of them -/
+    the block full, installs a new tail and completes; the clearer's CAS fails (it is back at the tail load, nothing
+    delivered yet, all three values visible); it loads the new tail, detaches, and this SAME call delivers all three
+    values — no K1 step is involved -/
 theorem failed_detach_witness :
     let progs : List (List Call) := [[.push 1, .push 2], [.push 3], [.clear, .clear]]
     let pre := [0, 0, 0, 0, 0, 0, 0, 0]
@@ -757,10 +772,51 @@ theorem failed_detach_witness :
     let s3 := run (init 2 progs) (pre ++ mid ++ [2, 2, 2, 2, 2, 2, 2, 2, 2, 2])
     completedPushes s1 = 2 ∧ (s1.threads[2]?.map (·.pc)) = some .start
     ∧ ((run (init 2 progs) (pre ++ [2, 2])).threads[2]?.map (·.pc)) = some (.cCas 0)
-    ∧ (s2.threads[2]?.map (·.results)) = some [.cleared []]
+    ∧ (s2.threads[2]?.map (fun t => (t.pc, t.results))) = some (.cLoadTail, [])
     ∧ completedPushes s2 = 3 ∧ delivered s2 = [] ∧ visible s2 = [3, 1, 2]
     ∧ stragglerClaims 2 progs (pre ++ mid) = 0
-    ∧ quiescent s3 = true ∧ delivered s3 = [3, 1, 2] ∧ visible s3 = [] := by decide
+    ∧ quiescent s3 = true ∧ (s3.threads[2]?.map (·.results)) = some [.cleared [3, 1, 2], .cleared []]
+    ∧ delivered s3 = [3, 1, 2] ∧ visible s3 = [] := by decide
+
+/-! ### the repaired defect, kept as theorems about the LEGACY step (`Bucket.stepLegacy`: `clear_with` before the fix) -/
+
+/-- LEGACY: before the fix a failed detaching CAS ended the call with `cleared []` (nothing delivered, bucket untouched) -/
+theorem legacy_failed_detach_ends_call (s : Sys) (tid : Nat) (t : Thread) (old : Nat)
+    (ht : s.threads[tid]? = some t) (hpc : t.pc = .cCas old) (hfail : s.tail ≠ some old) :
+    stepLegacy s tid = { s with threads := setAt s.threads tid (t.advance (.cleared [])) } := by
+  simp only [stepLegacy, ht, stepThreadLegacy, hpc, if_neg hfail]
+
+/-- LEGACY and repaired step agree on every step that is not a failing detach CAS -/
+theorem legacy_step_eq (s : Sys) (tid : Nat)
+    (h : ∀ t old, s.threads[tid]? = some t → t.pc = .cCas old → s.tail = some old) :
+    stepLegacy s tid = step s tid := by
+  unfold stepLegacy step
+  cases hg : s.threads[tid]? with
+  | none => rfl
+  | some t =>
+    simp only
+    have : stepThreadLegacy s t = stepThread s t := by
+      unfold stepThreadLegacy
+      cases hp : t.pc <;> simp only
+      rename_i old
+      rw [if_pos (h t old hg hp)]
+    rw [this]
+
+/-- LEGACY witness of the repaired defect (same programs and schedule as `failed_detach_witness`): with the old
+    `clear_with` the clear whose CAS failed RETURNED `cleared []` although three pushes had completed — two of them before
+    it began — and all three values stayed in the bucket for the next clear -/
+theorem legacy_failed_detach_witness :
+    let progs : List (List Call) := [[.push 1, .push 2], [.push 3], [.clear, .clear]]
+    let pre := [0, 0, 0, 0, 0, 0, 0, 0]
+    let mid := [2, 2, 1, 1, 1, 1, 1, 1, 2]
+    let s1 := runLegacy (init 2 progs) pre
+    let s2 := runLegacy (init 2 progs) (pre ++ mid)
+    let s3 := runLegacy (init 2 progs) (pre ++ mid ++ [2, 2, 2, 2, 2, 2, 2, 2, 2, 2])
+    completedPushes s1 = 2 ∧ (s1.threads[2]?.map (·.pc)) = some .start
+    ∧ (s2.threads[2]?.map (·.results)) = some [.cleared []]
+    ∧ completedPushes s2 = 3 ∧ delivered s2 = [] ∧ visible s2 = [3, 1, 2]
+    ∧ quiescent s3 = true ∧ (s3.threads[2]?.map (·.results)) = some [.cleared [], .cleared [3, 1, 2]]
+    ∧ delivered s3 = [3, 1, 2] ∧ visible s3 = [] := by decide
 
 /-! ### the positive side: once the tail has been null, everything published before is delivered
 
@@ -922,6 +978,134 @@ theorem delivered_once_tail_was_null (B : Nat) (progs : List (List Call)) (pre m
     have h0 : pubc v newBlock.cells = 0 := rfl
     split <;> omega
 
+/-! ### since the retry fix: a `clear_with` that returned has passed a moment at which the tail was null
+
+So the hypothesis "the tail was null at some moment" of `delivered_once_tail_was_null` follows from "a clear that began
+after the pushes in question has returned".  (False of the legacy step: `legacy_failed_detach_witness`.) -/
+
+/-- thread `d` is inside a `clear_with` call — the one that will produce its result number `n` — and has not detached
+    yet: it stands before the tail load, or between the load and the CAS -/
+def BeforeDetach (n d : Nat) (s : Sys) : Prop :=
+  ∃ t, s.threads[d]? = some t ∧ t.results.length = n ∧ t.calls.head? = some .clear
+    ∧ (t.pc = .start ∨ t.pc = .cLoadTail ∨ ∃ o, t.pc = .cCas o)
+
+/-- one step of any thread: the clearer is still before its detach, or the tail is null now, or it is null after
+    the step (the clearer's own successful CAS).  The failing CAS is the case that needed the fix: it now leads back to
+    `cLoadTail` instead of ending the call. -/
+theorem beforeDetach_step (n d : Nat) (s : Sys) (tid : Nat) (h : BeforeDetach n d s) :
+    BeforeDetach n d (step s tid) ∨ s.tail = none ∨ (step s tid).tail = none := by
+  obtain ⟨t, ht, hn, hc, hpc⟩ := h
+  cases hg : s.threads[tid]? with
+  | none =>
+    left
+    have : step s tid = s := by unfold step; rw [hg]
+    rw [this]; exact ⟨t, ht, hn, hc, hpc⟩
+  | some u =>
+    have hlt : tid < s.threads.length := by
+      rcases Nat.lt_or_ge tid s.threads.length with h | h
+      · exact h
+      · rw [List.getElem?_eq_none h] at hg; cases hg
+    rw [step_eq s tid u hg]
+    by_cases hd : tid = d
+    · subst hd
+      rw [ht] at hg
+      cases hg
+      have hget : ∀ (x : Thread), (setAt s.threads tid x)[tid]? = some x := by
+        intro x; simp only [getElem?_setAt, hlt, and_self, if_true]
+      rcases hpc with hp | hp | ⟨o, hp⟩
+      · left
+        refine ⟨_, hget _, ?_, ?_, ?_⟩
+        · simp only [stepThread, hp]; exact hn
+        · simp only [stepThread, hp]; exact hc
+        · right; left
+          simp only [stepThread, hp]
+          cases hcs : t.calls with
+          | nil => rw [hcs] at hc; cases hc
+          | cons c r =>
+            rw [hcs] at hc
+            simp only [List.head?_cons, Option.some.injEq] at hc
+            subst hc; rfl
+      · cases htl : s.tail with
+        | none => right; left; rfl
+        | some b =>
+          left
+          refine ⟨_, hget _, ?_, ?_, ?_⟩
+          · simp only [stepThread, hp, htl]; exact hn
+          · simp only [stepThread, hp, htl]; exact hc
+          · right; right; exact ⟨b, by simp only [stepThread, hp, htl]⟩
+      · by_cases hto : s.tail = some o
+        · right; right
+          simp only [stepThread, hp, if_pos hto]
+        · left
+          refine ⟨_, hget _, ?_, ?_, ?_⟩
+          · simp only [stepThread, hp, if_neg hto]; exact hn
+          · simp only [stepThread, hp, if_neg hto]; exact hc
+          · right; left; simp only [stepThread, hp, if_neg hto]
+    · left
+      refine ⟨t, ?_, hn, hc, hpc⟩
+      show (setAt s.threads tid _)[d]? = some t
+      rw [getElem?_setAt]
+      simp only [hd, false_and, if_false]
+      exact ht
+
+/-- along any schedule: the clearer is still before its detach at the end, or the schedule splits at a moment at which
+    the tail was null -/
+theorem beforeDetach_run (n d : Nat) (sched : List Nat) : ∀ (s : Sys), BeforeDetach n d s →
+    BeforeDetach n d (run s sched) ∨ ∃ m1 m2, sched = m1 ++ m2 ∧ (run s m1).tail = none := by
+  induction sched with
+  | nil => intro s h; exact Or.inl h
+  | cons tid rest ih =>
+    intro s h
+    rcases beforeDetach_step n d s tid h with h1 | h1 | h1
+    · rcases ih (step s tid) h1 with h2 | ⟨m1, m2, e, h2⟩
+      · left; simpa only [run, List.foldl_cons] using h2
+      · right
+        refine ⟨tid :: m1, m2, by rw [e]; rfl, ?_⟩
+        simpa only [run, List.foldl_cons] using h2
+    · right; exact ⟨[], tid :: rest, rfl, h1⟩
+    · right; exact ⟨[tid], rest, rfl, h1⟩
+
+/-- **a `clear_with` that began after a push completed and has returned — the push has been delivered** (schedules
+    without a K1 step; the statement the retry fix makes true).  ANY programs, any block size, EVERY schedule
+    `pre ++ mid` without a K1 step: if after `pre` some thread `d` has not yet loaded the tail in its current `clear_with`
+    call (it is at `start` or at the tail load, its next call is a clear) and after `pre ++ mid` that call has returned
+    (`d` has more results than it had), and after `pre ++ mid` no thread is inside a `clear_with` walk, then, value by
+    value, the clears have delivered `v` at least as often as slots holding `v` were published when `pre` ended.
+    No hypothesis about the tail or about failed CASes is left: a failed detach is retried, so a call that returned has
+    either seen a null tail or nulled it itself (`beforeDetach_run`). -/
+theorem delivered_once_clear_returned (B : Nat) (progs : List (List Call)) (pre mid : List Nat) (d : Nat) (t0 t1 : Thread)
+    (hk : stragglerClaims B progs (pre ++ mid) = 0)
+    (h0 : (run (init B progs) pre).threads[d]? = some t0)
+    (hcall : t0.calls.head? = some .clear) (hpc : t0.pc = .start ∨ t0.pc = .cLoadTail)
+    (h1 : (run (init B progs) (pre ++ mid)).threads[d]? = some t1)
+    (hret : t0.results.length < t1.results.length)
+    (hidle : ∀ (i : Nat) (t : Thread), (run (init B progs) (pre ++ mid)).threads[i]? = some t → claim t.pc = none)
+    (v : Nat) :
+    pubCount v (run (init B progs) pre) ≤ (delivered (run (init B progs) (pre ++ mid))).count v := by
+  have hb : BeforeDetach t0.results.length d (run (init B progs) pre) :=
+    ⟨t0, h0, rfl, hcall, by rcases hpc with h | h; exact Or.inl h; exact Or.inr (Or.inl h)⟩
+  rcases beforeDetach_run t0.results.length d mid _ hb with h | ⟨m1, m2, e, hnull⟩
+  · obtain ⟨t, ht, hn, _⟩ := h
+    rw [← run_append, h1] at ht
+    cases ht
+    omega
+  · subst e
+    rw [← run_append] at hnull
+    rw [← List.append_assoc] at hk hidle ⊢
+    exact delivered_once_tail_was_null B progs pre m1 m2 hk hnull hidle v
+
+/-- non-vacuity of `delivered_once_clear_returned` on the very schedule of the repaired defect (`failed_detach_witness`):
+    the clear begins after pushes 1 and 2 completed, its first CAS fails, and when it has returned both have been delivered -/
+example :
+    let progs : List (List Call) := [[.push 1, .push 2], [.push 3], [.clear]]
+    let pre := [0, 0, 0, 0, 0, 0, 0, 0]
+    let mid := [2, 2, 1, 1, 1, 1, 1, 1, 2, 2, 2, 2, 2, 2, 2, 2, 2]
+    stragglerClaims 2 progs (pre ++ mid) = 0
+    ∧ ((run (init 2 progs) pre).threads[2]?.map (fun t => (t.calls.head?, t.pc, t.results.length))) = some (some .clear, .start, 0)
+    ∧ ((run (init 2 progs) (pre ++ mid)).threads[2]?.map (·.results)) = some [.cleared [3, 1, 2]]
+    ∧ ((run (init 2 progs) (pre ++ mid)).threads.map (fun t => (claim t.pc).isSome)) = [false, false, false]
+    ∧ pubCount 1 (run (init 2 progs) pre) = 1 ∧ pubCount 2 (run (init 2 progs) pre) = 1 := by decide
+
 /-! ### source facts for the paths the step machine does not model in detail -/
 
 open MetricsVerif.Src in
@@ -943,7 +1127,7 @@ theorem src_bucket_wait_and_reclaim :
     ∧ names Generated.shape_block_drop = ["self.is_quiesced", "self.len", "_.drop_in_place"]
     ∧ Generated.block_drop_range = "0..len"
     ∧ names Generated.shape_bucket_clear_reclaim
-        = ["tail.load", "tail.compare_exchange", "next.load", "freeable_blocks.push", "guard.defer_unchecked",
+        = ["tail.load", "tail.compare_exchange", "tail.load", "next.load", "freeable_blocks.push", "guard.defer_unchecked",
            "block.into_owned", "guard.defer_unchecked", "block.into_owned", "guard.flush"]
     ∧ Generated.bucket_deferred_batch = "32" ∧ Generated.bucket_batch_branch_exits = []
     ∧ Generated.bucket_epoch_pins
